@@ -16,13 +16,13 @@ theorem c07_meta_matches_parsers : parsers.map (·.1) = parsersMeta.map (·.1) :
 /-- every modelled token is a case of `LookupPackage` with the same package type and width flag -/
 theorem c07_modelled_tokens_in_lookup : ∀ e ∈ parsersMeta, e ∈ Gen.Lookup.table := by decide
 
-/-- the cases of `LookupPackage` that the parser table does not cover yet: the format / data
-packages of the fields group (PARAMFMT/2, ROWFMT/2, PARAMS, ROW, ORDERBY/2); every other token
-is a `TokenlessPackage` in both -/
-def pendingTokens : List Nat := [236, 32, 238, 97, 215, 209, 169, 34]
+/-- the `LastPkgAcceptor`s of `select` are cases of `LookupPackage` too -/
+theorem c07_acceptor_tokens_in_lookup : ∀ e ∈ acceptorsMeta, e ∈ Gen.Lookup.table := by decide
 
+/-- every case of `LookupPackage` is modelled: by the parser table or as an acceptor; every other
+token is a `TokenlessPackage` in both -/
 theorem c07_tokens_covered :
-    (Gen.Lookup.table.filter (fun e => !(parsersMeta.contains e))).map (·.1) = pendingTokens := by decide
+    Gen.Lookup.table.filter (fun e => !(parsersMeta.contains e) && !(acceptorsMeta.contains e)) = [] := by decide
 
 theorem c07_default_is_tokenless : Gen.Lookup.defaultType = "TokenlessPackage" := by decide
 
